@@ -3,6 +3,7 @@
 (* record per grammar of the work list:                                     *)
 (*   key    : name of the grammar (for the report only)                     *)
 (*   G      : the grammar (LR.tla format)                                   *)
+(*   maxlen : length of the longest word tried for this grammar             *)
 (*   first  : [ok, sets]  what ppci's calculate_first_sets returned         *)
 (*   lr     : [outcome |-> "tables" | "conflict" | "crash", tab |-> ...]    *)
 (*            the action/goto tables LrParserBuilder produced (LR.tla       *)
@@ -39,16 +40,15 @@ Tab == R.lr.tab
 Run == R.runs[k]
 W == Run.w
 
-MaxLen == 5          \* no word of the work list is longer
 Init == chunk = 0 /\ i = 0 /\ lang = {} /\ k = 0 /\ d = "?" /\ c = Idle
 PickChunk == /\ chunk = 0 /\ chunk' \in 1..NChunks
              /\ UNCHANGED <<i, lang, k, d, c>>
-\* choose a grammar; compute its language up to MaxLen once (the oracle of
+\* choose a grammar; compute its language up to maxlen once (the oracle of
 \* every clause: LangUpTo(G, n) = {w : Derives(G, w), Len(w) <= n}, a law
 \* model-checked in LR_MC and re-checked here on a sample, LangAgrees)
 PickRec == /\ chunk > 0 /\ i = 0
            /\ i' \in {n \in 1..Len(Recs) : n % NChunks = chunk - 1}
-           /\ lang' = LangUpTo(Recs[i'].G, MaxLen)
+           /\ lang' = LangUpTo(Recs[i'].G, Recs[i'].maxlen)
            /\ UNCHANGED <<chunk, k, d, c>>
 \* choose a word
 PickRun == /\ i > 0 /\ k = 0
@@ -79,8 +79,8 @@ Next == PickChunk \/ PickRec \/ PickRun \/ JudgeEarley
         \/ Shift \/ Reduce \/ Accept \/ Error \/ OutOfFuel
 
 \* the oracle agrees with the definition (sampled: one run in eight)
-LangAgrees == (AtRunStart /\ Len(W) <= MaxLen /\ (i + k) % 8 = 0) => (d = "yes" <=> Derives(G, W))
-WordsInRange == k > 0 => Len(W) <= MaxLen
+LangAgrees == (AtRunStart /\ Len(W) <= R.maxlen /\ (i + k) % 8 = 0) => (d = "yes" <=> Derives(G, W))
+WordsInRange == k > 0 => Len(W) <= R.maxlen
 
 \* ---- grammar level -----------------------------------------------------------
 \* calculate_first_sets: for every non-terminal exactly the terminals that can
